@@ -72,7 +72,14 @@ func (f *File) ReadAt(p []byte, off int64) (n int, err error) {
 	if f.closed {
 		return 0, afero.ErrFileClosed
 	}
+	if off < 0 {
+		return 0, afero.ErrOutOfRange
+	}
 	err = f.fillBuffer(off + int64(len(p)))
+	if off > int64(len(f.buf)) {
+		// Beyond the end of the file: nothing to read, err is io.EOF.
+		return 0, err
+	}
 	n = copy(p, f.buf[int(off):])
 	return
 }
